@@ -7,6 +7,19 @@ import Jence.Lemmas.Board
 namespace Jence
 open Jence
 
+/-- `make_search_move` without its check test: what the new position would be -/
+def makeForce (g : Game) (m : Move) : Game := makePost (makePre g m) m
+
+theorem makeCore_some {g g' : Game} {m : Move} (h : makeCore g m = some g') : g' = makeForce g m := by
+  unfold makeCore at h
+  simp only at h
+  split at h
+  · exact absurd h (by simp)
+  · injection h with h; exact h.symm
+
+theorem makeCore_eq (g : Game) (m : Move) :
+    makeCore g m = if isInCheck (makePre g m) (makePre g m).white then none else some (makeForce g m) := rfl
+
 /-- the square of the pawn an en-passant capture removes -/
 def vsq (w : Bool) (to : Nat) : Nat := if w then to + 8 else to - 8
 
@@ -352,42 +365,42 @@ theorem makePre_rep (g : Game) (m : Move) (b : Board) (h : Rep g.bbs b none) (fi
     exact rep_merge _ _ _ _ h2 (by rw [hne hft]; exact hto)
 
 /-- **the piece placement after `make_search_move`** is the board the rules prescribe -/
+theorem makeCore_rep_force (g : Game) (m : Move) (b : Board) (h : Rep g.bbs b none) (fits : MoveFits b g.white m) : Rep (makeForce g m).bbs (applyB b g.white m) none := by
+  unfold makeForce
+  have hpl := ownP_lt fits.piece
+  have hpre := makePre_rep g m b h fits
+  rw [makePost_bbs]
+  generalize hb2 : (if m.isEnpassant then (b.set m.fromSq none).set (vsq g.white m.toSq) none else b.set m.fromSq none) = b2 at hpre
+  have hr4 : Rep (postClock (postOcc (makePre g m) m) m).bbs (b2.set m.toSq (some m.piece)) none := by
+    rw [postClock_bbs, postOcc_bbs]; exact hpre
+  have hsp := postSpecial_rep _ m _ hr4 hpl fits.toLt (by simp)
+    (fun hpr => ⟨ownP_lt (fits.promo hpr).1, (fits.promo hpr).2⟩)
+    (fun hpn hcs => by
+      obtain ⟨_, hcf, r, f, t, hhop, hbf, hbt, hff, hft, _, _⟩ := fits.castle hcs
+      obtain ⟨n1, n2, _, _, _, _⟩ := rookHop_ne _ _ _ _ hhop
+      have he : ¬ (m.isEnpassant = true) := fun he => by have := (fits.ep he).1; rw [hcf] at this; exact absurd this (by simp)
+      rw [if_neg he] at hb2
+      refine ⟨r, f, t, hhop, ?_, ?_⟩
+      · rw [Board.set_ne _ _ _ _ n1, ← hb2, Board.set_ne _ _ _ _ (fun h => hff h.symm)]; exact hbf
+      · rw [Board.set_ne _ _ _ _ n2, ← hb2, Board.set_ne _ _ _ _ (fun h => hft h.symm)]; exact hbt)
+  unfold applyB
+  simp only
+  rw [hb2]
+  by_cases hpr : m.promotion ≠ PNONE
+  · rw [if_pos hpr] at hsp
+    rw [if_pos hpr]
+    rw [Board.set_set] at hsp
+    have hcs : ¬ (m.isCastling = true) := fun hcs => hpr (fits.castle hcs).1
+    rw [if_neg hcs]
+    exact hsp
+  · rw [if_neg hpr] at hsp
+    rw [if_neg hpr]
+    exact hsp
+
 theorem makeCore_rep (g g' : Game) (m : Move) (b : Board) (h : Rep g.bbs b none) (fits : MoveFits b g.white m)
     (hmk : makeCore g m = some g') : Rep g'.bbs (applyB b g.white m) none := by
-  unfold makeCore at hmk
-  simp only at hmk
-  split at hmk
-  · exact absurd hmk (by simp)
-  · injection hmk with hmk
-    subst hmk
-    have hpl := ownP_lt fits.piece
-    have hpre := makePre_rep g m b h fits
-    rw [makePost_bbs]
-    generalize hb2 : (if m.isEnpassant then (b.set m.fromSq none).set (vsq g.white m.toSq) none else b.set m.fromSq none) = b2 at hpre
-    have hr4 : Rep (postClock (postOcc (makePre g m) m) m).bbs (b2.set m.toSq (some m.piece)) none := by
-      rw [postClock_bbs, postOcc_bbs]; exact hpre
-    have hsp := postSpecial_rep _ m _ hr4 hpl fits.toLt (by simp)
-      (fun hpr => ⟨ownP_lt (fits.promo hpr).1, (fits.promo hpr).2⟩)
-      (fun hpn hcs => by
-        obtain ⟨_, hcf, r, f, t, hhop, hbf, hbt, hff, hft, _, _⟩ := fits.castle hcs
-        obtain ⟨n1, n2, _, _, _, _⟩ := rookHop_ne _ _ _ _ hhop
-        have he : ¬ (m.isEnpassant = true) := fun he => by have := (fits.ep he).1; rw [hcf] at this; exact absurd this (by simp)
-        rw [if_neg he] at hb2
-        refine ⟨r, f, t, hhop, ?_, ?_⟩
-        · rw [Board.set_ne _ _ _ _ n1, ← hb2, Board.set_ne _ _ _ _ (fun h => hff h.symm)]; exact hbf
-        · rw [Board.set_ne _ _ _ _ n2, ← hb2, Board.set_ne _ _ _ _ (fun h => hft h.symm)]; exact hbt)
-    unfold applyB
-    simp only
-    rw [hb2]
-    by_cases hpr : m.promotion ≠ PNONE
-    · rw [if_pos hpr] at hsp
-      rw [if_pos hpr]
-      rw [Board.set_set] at hsp
-      have hcs : ¬ (m.isCastling = true) := fun hcs => hpr (fits.castle hcs).1
-      rw [if_neg hcs]
-      exact hsp
-    · rw [if_neg hpr] at hsp
-      rw [if_neg hpr]
-      exact hsp
+  have := makeCore_some hmk
+  subst this
+  exact makeCore_rep_force g m b h fits
 
 end Jence
